@@ -11,8 +11,7 @@ ASSUMPTIONS = ['exact-arithmetic lattices for the correspondence (DESIGN.md sect
 oracle_search = propgen.budgeted([ALL.for_property(ID)])
 
 
-def oracle_at(unit, case, impl):
-    return None
+oracle_at = propgen.point_oracle(ID)      # the property's point checks at and around the mismatching input (harness/oracles/at_point.py)
 
 
 def diagnose(b):
